@@ -29,6 +29,7 @@ func c12(c *Ctx) {
 	// a login lives in the connection object: the object a connection works with is its own (a recycled one has every field reset)
 	pooledObjectsReset(c, "session-object-fresh", "services/ftp", "services/ldap", "services/ssh")
 	c12FreshSession(c)
+	c12ReplyPerRequest(c)
 }
 
 // ---------- helpers
@@ -1180,4 +1181,71 @@ func c12FreshSession(c *Ctx) {
 		}
 		c.Check(ok, "session-object-fresh", fmt.Sprintf("newConn return[%d]", i), p.InstrPos(r), "a session object of this connection's own", "newConn hands out `"+why+"`, which is not an object made for this connection: the login state it carries is shared with other connections")
 	}
+}
+
+// c12ReplyPerRequest: the LDAP result code a request is answered with is decided by that request alone. Every reply
+// (resultCodeHandler.handle) is sent from an object made for this request (a fresh allocation), or one whose result
+// code is stored unconditionally on the way to the reply. A reply object kept across requests (a field of the
+// per-connection handler) that is only initialised once answers a rejected bind with the code of an earlier accepted one.
+func c12ReplyPerRequest(c *Ctx) {
+	p := c.P
+	const rule = "ldap-reply-per-request"
+	rh := p.Method("services/ldap", "resultCodeHandler", "handle")
+	if !c.Anchor(rh != nil, rule, "(*ldap.resultCodeHandler).handle") {
+		return
+	}
+	n := 0
+	for _, fn := range p.FuncsIn("services/ldap") {
+		if fn.Blocks == nil || strings.HasSuffix(p.Fset.Position(fn.Pos()).Filename, "_test.go") {
+			continue
+		}
+		for _, call := range Calls(fn) {
+			cv, ok := call.(*ssa.Call)
+			if !ok || cv.Call.StaticCallee() != rh || len(cv.Call.Args) == 0 {
+				continue
+			}
+			n++
+			key := fmt.Sprintf("%s reply #%d", shortFn(fn), n)
+			good := true
+			why := ""
+			for _, lf := range leaves(cv.Call.Args[0]) {
+				if al, isAlloc := lf.(*ssa.Alloc); isAlloc && al.Parent() == fn {
+					continue // made for this request
+				}
+				// kept elsewhere: the result code (or the whole object) must be stored on every path to the reply
+				stored := false
+				for _, b := range fn.Blocks {
+					for _, in := range b.Instrs {
+						st, isSt := in.(*ssa.Store)
+						if !isSt {
+							continue
+						}
+						hit := false
+						if fa, isFA := st.Addr.(*ssa.FieldAddr); isFA && fieldNameOf(fa) == "resultCode" && Render(fa.X) == Render(lf) {
+							hit = true
+						}
+						if Render(st.Addr) == Render(lf) {
+							hit = true
+						}
+						if !hit {
+							continue
+						}
+						if st.Block() == cv.Block() {
+							if instrIdx(st) < instrIdx(cv) {
+								stored = true
+							}
+						} else if st.Block().Dominates(cv.Block()) {
+							stored = true
+						}
+					}
+				}
+				if !stored {
+					good, why = false, RenderN(lf, 3)
+				}
+			}
+			c.Check(good, rule, key, p.InstrPos(cv), "the reply object is made for this request (or its result code is set on every path to the reply)",
+				"this reply is sent from "+why+", an object that outlives the request, and no store of its result code lies on every path to the reply: a request whose arm writes no code (a rejected bind relies on the default) is answered with the code an earlier request left behind, e.g. success after an earlier accepted bind")
+		}
+	}
+	c.Floor(rule, 4, "bind (2), catch-all, extended")
 }
